@@ -11,6 +11,7 @@ mod pre_unroll;
 mod pre_worker;
 mod pre_expand;
 mod pre_sx;
+mod pre_reflect;
 
 use std::io::Write;
 
